@@ -208,6 +208,14 @@ int encode_operands(struct instr *instrc) {
     }
     instrc->rd_offset = instrc->opd[0].reg & VALUE_MASK;
   }
+  // movzx from a 16-bit source (register or `word` memory operand) has its
+  // own opcode; the keyword sizes the source, not the operation
+  if (NAME(instrc->key, movzx) &&
+      (instrc->mem_disp ? instrc->keyword.is_word
+                        : (instrc->opd[1].reg & BIT_MASK) == BIT_16)) {
+    instrc->key++;
+    instrc->keyword.is_word = false;
+  }
   // set 'byte' keyword
   if (instrc->mem_disp)
     auto_set_byte(instrc);
